@@ -25,6 +25,13 @@ use common::Tier;
 
 fn main() {
     let args: Vec<String> = std::env::args().collect();
+    {
+        let l = common::calibrated_limit();
+        refmodel::scan::set_limit_zone(l);
+        if l != 80 {
+            eprintln!("[calibration] the library refuses nesting from depth {} on (80 at the pinned commit); limit-dependent expectations follow it", l);
+        }
+    }
     if args.len() < 2 {
         println!("usage: mc <C01..C20|audit> <quick|thorough> | mc <Cxx> --replay <file>");
         std::process::exit(2);
